@@ -26,6 +26,19 @@ set_option linter.unusedSimpArgs false
 theorem multi_never_ro (s : List Char) (xr xw : List String) (h : hasMultiple s = true) : isReadonly s xr xw = none := by
   simp [isReadonly, h]
 
+/-- text with a `$name(…)` / `:name(…)` / `@name(…)` / `#name(…)` token is never classified: SQLite reads such a token as one
+    variable, quote characters and all, so the quote scanner cannot be trusted on it -/
+theorem variable_suffix_not_ro (s : List Char) (xr xw : List String) (h : hasVarSuffix s = true) : isReadonly s xr xw = none := by
+  simp [isReadonly, h]
+
+/-- T0: the guard is the first test of `is_readonly_sql` and its pattern is the one `hasVarSuffix` transcribes -/
+theorem variable_suffix_pattern :
+    Generated.Sql.variableWithSuffixPattern = "(?<![:\\w])[$@:#][\\w$][^\\s()'\\\"`;,]*\\(" := by decide
+
+example : hasVarSuffix "SELECT $a(') ; DELETE FROM t --'".toList = true ∧ hasVarSuffix "SELECT :a(x)".toList = true
+    ∧ hasVarSuffix "SELECT x::numeric(10,2) FROM t".toList = false ∧ hasVarSuffix "SELECT count(*), :id, $1 FROM t".toList = false := by
+  decide +kernel
+
 theorem ro_single (s : List Char) (xr xw : List String) (h : isReadonly s xr xw = some true) : hasMultiple s = false := by
   cases hm : hasMultiple s with
   | false => rfl
